@@ -215,7 +215,7 @@ Section SepSplit.
   Lemma sep_stable : stable unit record sp.
   Proof.
     apply stable_simple; [exact sep_wb| |].
-    - intros st d adv t st' Hs d' e.
+    - intros st d adv t st' Hs d'.
       destruct (first_occurrence sep d) as [Hn|(pre & post & -> & Hn)].
       + rewrite sep_none in Hs by exact Hn. cbn [andb] in Hs. discriminate.
       + rewrite sep_found in Hs by exact Hn. rewrite <- app_assoc. cbn [app].
@@ -418,10 +418,10 @@ Section RegexSplit.
   Lemma regex_stable : match_final -> stable unit record sp.
   Proof.
     intros MF. apply stable_simple; [exact regex_wb| |].
-    - intros st d adv t st' Hs d' e. destruct (find_cases d) as [(s & en & Hf & Hne)|Hf].
+    - intros st d adv t st' Hs d'. destruct (find_cases d) as [(s & en & Hf & Hne)|Hf].
       + rewrite (regex_found st d false s en Hf Hne) in Hs. injection Hs as <- <- <-.
         destruct (find_bounds _ _ _ Hf) as (H1 & H2 & H3).
-        rewrite (regex_found st (d ++ d') e s en (MF _ _ _ _ Hf Hne) Hne).
+        rewrite (regex_found st (d ++ d') true s en (MF _ _ _ _ Hf Hne) Hne).
         rewrite ztake_app_le by lia. rewrite zdrop_app_le by lia.
         rewrite ztake_app_le; [reflexivity|]. rewrite zlen_zdrop by lia. lia.
       + rewrite regex_nomatch in Hs by exact Hf. cbn [andb] in Hs. discriminate.
